@@ -519,6 +519,100 @@ pub fn other_builders() -> Vec<(&'static str, SerBuilder)> {
         })
     }));
 
+    // ---- parameter sets with hostile float values (non-finite, signed zero, extreme): the restored
+    //      set must pass or fail validation exactly like the original and refit alike
+    fn hostile(seed: u64) -> f64 {
+        [f64::NAN, f64::NEG_INFINITY, f64::INFINITY, -0.0, 0.0, -1.0, 1e-300, 1e300, 0.5][(seed % 9) as usize]
+    }
+    fn refit_or_err(r: Result<String, String>) -> String {
+        match r {
+            Ok(s) => s,
+            Err(e) => format!("fit-err: {e}"),
+        }
+    }
+    v.push(("optics-params-hostile", |seed| {
+        let p = Optics::params::<f64>(3).tolerance(hostile(seed));
+        ser!("optics-params-hostile", p, noeq, |p: &linfa_clustering::OpticsParams<f64, L2Dist, CommonNearestNeighbour>| {
+            let d = make_data(4, 40, 2, false);
+            let mut out = vec![("check".to_string(), verdict(p.check_ref()))];
+            out.push(("analysis".into(), refit_or_err(p.transform(d.x.view()).map_err(es).map(|a| {
+                a.iter().map(|s| format!("{}:{:?}:{:?}", s.index(), s.core_distance().map(fb), s.reachability_distance().map(fb))).collect::<Vec<_>>().join(",")
+            }))));
+            Ok(out)
+        })
+    }));
+    v.push(("kmeans-params-hostile", |seed| {
+        let p = linfa_clustering::KMeans::<f64, L2Dist>::params_with_rng(2, rand_xoshiro::Xoshiro256Plus::seed_from_u64(9)).max_n_iterations(10).tolerance(hostile(seed));
+        ser!("kmeans-params-hostile", p, noeq, |p: &linfa_clustering::KMeansParams<f64, rand_xoshiro::Xoshiro256Plus, L2Dist>| {
+            let d = make_data(21, 40, 2, false);
+            let mut out = vec![("check".to_string(), verdict(p.check_ref()))];
+            out.push(("refit".into(), refit_or_err(p.fit(&DatasetBase::from(d.x.clone())).map_err(es).map(|m| arr2(m.centroids())))));
+            Ok(out)
+        })
+    }));
+    v.push(("gmm-params-hostile", |seed| {
+        let base = linfa_clustering::GaussianMixtureModel::<f64>::params_with_rng(2, rand_xoshiro::Xoshiro256Plus::seed_from_u64(5)).max_n_iterations(15);
+        let p = if (seed / 9) % 2 == 0 { base.tolerance(hostile(seed)) } else { base.reg_covariance(hostile(seed)) };
+        ser!("gmm-params-hostile", p, noeq, |p: &linfa_clustering::GmmParams<f64, rand_xoshiro::Xoshiro256Plus>| {
+            let d = make_data(22, 60, 2, false);
+            let mut out = vec![("check".to_string(), verdict(p.check_ref()))];
+            out.push(("refit".into(), refit_or_err(p.fit(&DatasetBase::from(d.x.clone())).map_err(es).map(|m| arr2(m.means())))));
+            Ok(out)
+        })
+    }));
+    v.push(("logistic-params-hostile", |seed| {
+        let base = linfa_logistic::LogisticRegression::<f64>::default().max_iterations(30);
+        let p = if (seed / 9) % 2 == 0 { base.alpha(hostile(seed)) } else { base.gradient_tolerance(hostile(seed)) };
+        ser!("logistic-params-hostile", p, noeq, |p: &linfa_logistic::LogisticRegression<f64>| {
+            let d = make_data(6, 60, 2, false);
+            let mut out = vec![("check".to_string(), verdict(p.check_ref()))];
+            if p.check_ref().is_ok() {
+                out.push(("refit".into(), refit_or_err(p.fit(&Dataset::new(d.x.clone(), d.ybin.clone())).map_err(es).map(|m| arr1(m.params())))));
+            }
+            Ok(out)
+        })
+    }));
+    v.push(("tree-params-hostile", |seed| {
+        let base = linfa_trees::DecisionTree::<f64, usize>::params().max_depth(Some(3));
+        let h = hostile(seed) as f32;
+        let p = match (seed / 9) % 3 { 0 => base.min_impurity_decrease(hostile(seed)), 1 => base.min_weight_leaf(h), _ => base.min_weight_split(h) };
+        ser!("tree-params-hostile", p, noeq, |p: &linfa_trees::DecisionTreeParams<f64, usize>| {
+            let d = make_data(8, 50, 2, false);
+            let mut out = vec![("check".to_string(), verdict(p.check_ref()))];
+            if p.check_ref().is_ok() {
+                out.push(("refit".into(), refit_or_err(p.fit(&Dataset::new(d.x.clone(), d.ycls.clone())).map_err(es).map(|m| format!("{}/{}", m.max_depth(), m.num_leaves())))));
+            }
+            Ok(out)
+        })
+    }));
+    v.push(("ftrl-params-hostile", |seed| {
+        let base = linfa_ftrl::Ftrl::<f64>::params();
+        let h = hostile(seed);
+        let p = match (seed / 9) % 4 { 0 => base.alpha(h), 1 => base.beta(h), 2 => base.l1_ratio(h), _ => base.l2_ratio(h) };
+        ser!("ftrl-params-hostile", p, noeq, |p: &linfa_ftrl::FtrlParams<f64, rand_xoshiro::Xoshiro256Plus>| {
+            let d = make_data(23, 40, 2, false);
+            let mut out = vec![("check".to_string(), verdict(p.check_ref()))];
+            if p.check_ref().is_ok() {
+                out.push(("refit".into(), refit_or_err(p.fit_with(None, &Dataset::new(d.x.clone(), d.ybin.clone())).map_err(es).map(|m| arr1(&m.get_weights())))));
+            }
+            Ok(out)
+        })
+    }));
+    v.push(("scaler-params-hostile", |seed| {
+        let (a, b2) = (hostile(seed), hostile(seed / 9 + 3));
+        ser!("scaler-params-hostile", LinearScaler::<f64>::min_max_range(a, b2), noeq, |p: &linfa_preprocessing::linear_scaling::LinearScalerParams<f64>| {
+            let d = make_data(3, 20, 2, false);
+            Ok(vec![("refit".into(), refit_or_err(p.fit(&DatasetBase::from(d.x.clone())).map_err(es).map(|m| format!("{}|{}", arr1(m.offsets()), arr1(m.scales())))))])
+        })
+    }));
+    v.push(("pca-params-variants", |seed| {
+        let p = linfa_reduction::Pca::params(1 + (seed % 3) as usize).whiten(seed % 2 == 0);
+        ser!("pca-params-variants", p, eq, |p: &linfa_reduction::PcaParams| {
+            let d = make_data(10, 40, 4, false);
+            Ok(vec![("refit".into(), refit_or_err(p.fit(&DatasetBase::from(d.x.clone())).map_err(es).map(|m| arr2(m.components()))))])
+        })
+    }));
+
     // ---- kernels methods, enums, errors
     v.push(("kernel-method-gaussian", |_| {
         ser!("kernel-method-gaussian", linfa_kernel::KernelMethod::Gaussian(2.5f64), eq, |k: &linfa_kernel::KernelMethod<f64>| {
